@@ -528,12 +528,12 @@ func checkC02(c *hk.Ctx, s *sys, sc *scenario, wf *wfSpec, prop string) {
 							cause = "noncritical-task-not-active-fails-deploy"
 						} else if c.Stats["fault.offer_late"] > 0 {
 							cause = "offer-round-without-a-host-deploys-nothing"
-						} else if any && startStallDen > 0 && c.S.Stats["fault.goroutine_start_stall"] > 0 {
-							// only with VERIF_START_STALL, in a run where a goroutine was held back:
-							// the TASK_RUNNING of a launched task can reach the core while the offers
-							// round that launched it is still in progress (DESIGN 12.10: the task is
-							// entered into the roster after the round). Attribution by circumstance,
-							// exploratory mode only.
+						} else if any && queuedDuringRound(s, wf, r.Err) {
+							// the TASK_RUNNING of an inactive (but running) critical task was already
+							// waiting in the event stream when the core came back from the offers round
+							// that launched it: the update and the roster entry (made after the round)
+							// are then handled at the same time and the update can find no task
+							// (DESIGN 12.10). simmesos observes exactly that circumstance.
 							cause = "status-update-before-roster-entry"
 						}
 					} else if strings.Contains(r.Err, "roles undeployable") && c.Stats["fault.offer_late"] > 0 && !fullRound(s, wf) {
@@ -650,16 +650,40 @@ var H = &hk.Harness{
 	},
 }
 
-var startStallDen int
+// queuedDuringRound: every critical role the error lists as inactive belongs to a task that runs
+// and whose first TASK_RUNNING was queued while the core was still inside its offers round.
+func queuedDuringRound(s *sys, wf *wfSpec, errS string) bool {
+	n := 0
+	for _, t := range wf.Tasks {
+		if !t.Critical || !(strings.Contains(errS, "."+t.Role+"]") || strings.Contains(errS, "."+t.Role+",") || strings.Contains(errS, "."+t.Role+";")) {
+			continue
+		}
+		found := false
+		for _, st := range s.mesos.AllTasks() {
+			if strings.Contains(st.Class, t.Class) && st.RunningQueuedDuringItsRound {
+				found = true
+			}
+		}
+		if !found {
+			return false
+		}
+		n++
+	}
+	return n > 0
+}
 
 func TestSim(t *testing.T) {
 	if p := os.Getenv("SIM_PROP"); p != "" {
 		H.Property = p
 	}
 	// late goroutine starts (a collector spawned before a request is sent may run only after the
-	// answer arrived): exploratory knob, off in the registered checks (DESIGN 12.10)
-	if n, _ := strconv.Atoi(os.Getenv("VERIF_START_STALL")); n > 0 {
-		H.StartStallDen, startStallDen = n, n
+	// answer arrived): on in the C02 check (DESIGN 12.10); the other whole-core checks keep their
+	// seeds, VERIF_START_STALL=<n> switches it on (0: off) for any of them
+	if p := os.Getenv("SIM_PROP"); p == "" || p == "C02" {
+		H.StartStallDen = 12
+	}
+	if v := os.Getenv("VERIF_START_STALL"); v != "" {
+		H.StartStallDen, _ = strconv.Atoi(v)
 	}
 	hk.Main(t, H)
 }
